@@ -86,6 +86,15 @@ CHECKS = {
    technique="TLA+ Proxy spec (client, front with in-pump goroutine and out-loop, scripted backend, FIFO channels with half-close) model-checked by TLC for every script incl. liveness/deadlock-freedom, negative configs (no half-close forwarding, first-message wait); every script executed by a real grpc-go client directly and through larking (RegisterConn); validated by TLC against ProxyTrace.tla (TranscriptEquivalence, BackendSaw, RequestMetadata)",
    text="TLC checks for all 108 scripts that the proxied composition terminates with the transcripts of the direct one; each script is then run for real on every method shape that carries it: the direct transcript must match the model's oracle (else infrastructure error) and the proxied client must see the same replies, status code, message and details, the backend the same messages, one invocation and the client's request metadata (incl. -bin), with hangs detected by a 4 s bound.",
    note="Two open known findings (F31, F32: first-message wait) are reported as KNOWN-FINDING lines. Response metadata is outside C10's statement. " + TB),
+ "C09": dict(engine="Entry", level="model_checking", design="3.6, 6/C09",
+   technique="TLA+ Entry spec (every guard of ServeHTTP / serveGRPCWeb / serveGRPC / serveHTTP as one action; every request answered exactly once, liveness under fairness, response shape a function of the request class) model-checked by TLC with a negative config (gRPC prefix tested before gRPC-web); all 7,200 abstract requests concretised and sent through the real Mux under option subsets and compared with Entry!Resp by TLC (RobustTrace.tla: EntryShape); generated adversarial neighbourhood and WebSocket sessions on real sockets judged by RobustTrace (NoCrash, NoHang, StatusLine, FramesWhole, WsFrames); crash formulas of RouterTrace/RpcTrace on Router_Gen rule sets and out-of-range codes",
+   text="No panic, hang or malformed answer: for every abstract request class the recorded response (status, content-type class, grpc-status presence, whole frames, google.rpc.Status error body, whether the service ran) must be what the entry model gives; every generated hostile request (path prefixes/extensions x verbs, query keys through repeated/map fields, junk headers, truncated/huge/garbage bodies and frames, byte-level mutants) under each of 4 option subsets must return control under recover() within 10 s with an HTTP status; every WebSocket session (frame atoms incl. unmasked, fragmented, reserved opcodes, oversized lengths, cut frames) must end with the handler returned and only well-formed server frames.",
+   note="Exploration of a model-derived neighbourhood, not arbitrary bytes (coverage-guided fuzzing is outside the fixed technique). " + TB),
+
+ "C13": dict(engine="Pool", level="model_checking", design="3.9, 6/C13",
+   technique="TLA+ Pool spec (pooled buffers: get/put/retain, NoAliasAfterPut, with negative configs no-copy-on-retain and double put) model-checked by TLC; a race-detector build of the harness runs a seeded concurrent mix of all protocols/shapes/codecs/compression with corrupt and over-limit traffic interleaved plus HttpBody uploads whose chunks handlers retain; every RPC validated by TLC against RpcTrace.tla (per-request view must equal the sequential model) and every retained buffer against PoolTrace.tla (RetainedStable, UploadComplete, ChunkLimit); race reports are violations",
+   text="Each response and each handler-visible message is a function of its own request: the concurrent mix is judged RPC by RPC with the same formulas as the sequential checks (RecvSeq, ReplySeq, StatusFidelity, Metadata...), retained HttpBody chunks are re-digested after the pools have been cycled by the rest of the mix, and the Go race detector watches the whole run.",
+   note="Data races are monitored on the executions the model drives, not proved absent. " + TB),
 }
 
 NOT_YET = {}
